@@ -47,6 +47,23 @@ func (c16) Run(c *run.Ctx, phase, idx int) {
 	if t == 0 {
 		legal = true // the library documents type 0 as Undefined carrying the bytes
 	}
+	// packets decoded in this case are kept and written again after all the
+	// others have been read: the first byte must still be the one received
+	type keptPkt struct {
+		p     mq.Packet
+		first byte
+	}
+	var keptList []keptPkt
+	defer func() {
+		for _, kp := range keptList {
+			out, _, werr, pan := libEncode(kp.p)
+			c.Eval(1)
+			if pan == nil && werr == nil && len(out) > 0 && out[0] != kp.first {
+				c.Violation("C16/first-byte-changed-later/"+T, fmt.Sprintf("a packet read with first byte %#02x writes %#02x after other packets were decoded", kp.first, out[0]), map[string]interface{}{"first_byte": fmt.Sprintf("%#02x", kp.first)})
+				return
+			}
+		}
+	}()
 	for k := 0; k < n; k++ {
 		var body []byte
 		class := "generated"
@@ -144,6 +161,11 @@ func (c16) Run(c *run.Ctx, phase, idx int) {
 		if pan != nil || werr != nil || len(out) == 0 {
 			c.Violation("C16/rewrite-failed/"+T, fmt.Sprintf("WriteTo of the decoded packet failed: %v %v", werr, pan), det())
 			continue
+		}
+		if len(keptList) < 48 && t != 0 {
+			keptList = append(keptList, keptPkt{res.Pkt, first})
+			// and a frame of the same type with another flag nibble is read in between
+			libRead(ref.Reframe(first^byte(1+k%15), body))
 		}
 		if out[0] != first {
 			c.Violation("C16/first-byte-not-preserved/"+T, fmt.Sprintf("read first byte %#02x, WriteTo wrote %#02x", first, out[0]), det())
